@@ -376,6 +376,19 @@ def premise_instances(premises, goal):
     return out
 
 
+def mentions(t, c, seen=None):
+    """Does the constant c occur in t?"""
+    seen = seen if seen is not None else set()
+    if t.get_id() in seen:
+        return False
+    seen.add(t.get_id())
+    if z3.is_const(t) and t.eq(c):
+        return True
+    if z3.is_quantifier(t):
+        return mentions(t.body(), c, seen)
+    return any(mentions(k, c, seen) for k in t.children())
+
+
 def _has_quant(t, seen=None):
     seen = seen if seen is not None else set()
     if t.get_id() in seen:
@@ -427,6 +440,84 @@ def _stage_abstract(premises, goal, timeout_ms, ground=False):
     return s.check()
 
 
+def split_last(goal):
+    """forall a. lo <= a < t + 1 -> phi(a)   ==   (forall a. lo <= a < t -> phi(a))  and  (lo <= t -> phi(t)).
+    The shape of an invariant re-established after the loop variable was incremented: the first conjunct is the old
+    invariant, the second the newly completed element with the bound variable replaced syntactically (no case split
+    on a quantified variable is left to the solver).  Returns [goal1, goal2] or None."""
+    if not (z3.is_quantifier(goal) and goal.is_forall() and goal.num_vars() == 1):
+        return None
+    body = goal.body()
+    if not (z3.is_implies(body) and z3.is_and(body.arg(0)) and body.arg(0).num_args() == 2):
+        return None
+    lo_c, hi_c = body.arg(0).arg(0), body.arg(0).arg(1)
+    v0 = z3.Var(0, goal.var_sort(0))
+    # lo <= a  (z3 may print it as a >= lo)
+    if z3.is_le(lo_c) and lo_c.arg(1).eq(v0):
+        lo = lo_c.arg(0)
+    elif z3.is_ge(lo_c) and lo_c.arg(0).eq(v0):
+        lo = lo_c.arg(1)
+    else:
+        return None
+    if not (z3.is_lt(hi_c) and hi_c.arg(0).eq(v0)):
+        return None
+    hi = hi_c.arg(1)
+    t = None
+    if z3.is_add(hi) and hi.num_args() == 2:
+        a0, a1 = hi.arg(0), hi.arg(1)
+        if z3.is_int_value(a1) and a1.as_long() == 1:
+            t = a0
+        elif z3.is_int_value(a0) and a0.as_long() == 1:
+            t = a1
+    if t is None or mentions_var(t) or mentions_var(lo):
+        return None
+    phi = body.arg(1)
+    g1 = z3.ForAll([z3.Const(goal.var_name(0), goal.var_sort(0))],
+                   z3.Implies(z3.And(lo <= z3.Const(goal.var_name(0), goal.var_sort(0)),
+                                     z3.Const(goal.var_name(0), goal.var_sort(0)) < t),
+                              z3.substitute_vars(phi, z3.Const(goal.var_name(0), goal.var_sort(0)))))
+    g2 = z3.Implies(lo <= t, z3.substitute_vars(phi, t))
+    return [g1, g2]
+
+
+def bound_int_consts(formulas, bound):
+    """-bound <= c <= bound for every uninterpreted integer constant of the formulas (a restriction: a model under it
+    is a model)."""
+    seen, out = set(), {}
+
+    def walk(t):
+        if t.get_id() in seen:
+            return
+        seen.add(t.get_id())
+        if z3.is_quantifier(t):
+            walk(t.body())
+            return
+        if z3.is_app(t):
+            if t.num_args() == 0 and t.decl().kind() == z3.Z3_OP_UNINTERPRETED and z3.is_int(t):
+                out[t.get_id()] = t
+            for c in t.children():
+                walk(c)
+    for f in formulas:
+        walk(f)
+    return [z3.And(c >= -bound, c <= bound) for c in out.values()]
+
+
+def mentions_var(t, seen=None):
+    """Does t contain a de Bruijn variable (i.e. is it open)?"""
+    seen = seen if seen is not None else set()
+    if t.get_id() in seen:
+        return False
+    seen.add(t.get_id())
+    if z3.is_var(t):
+        return True
+    if z3.is_quantifier(t):
+        return False
+    return any(mentions_var(c, seen) for c in t.children())
+
+
+AUX = {}  # id -> term: quantified auxiliary facts (unfoldings under a binder); kept alive so that ids stay unique
+
+
 def check_valid(premises, goal, timeout_ms=10000, want_model=True, use_cvc5=True, hints=True, stages=None):
     """Is (/\\ premises) => goal valid?  proved / refuted(+model) / unknown.
 
@@ -436,6 +527,17 @@ def check_valid(premises, goal, timeout_ms=10000, want_model=True, use_cvc5=True
           real multiplication), (2) the same without the ground hints, (3) native non-linear arithmetic (the
           only source of counter-models), (4) native with product-monotonicity hints, (5) cvc5."""
     t0 = time.time()
+    if hints and stages is None and not os.environ.get('PVC_NO_SPLIT'):
+        parts = split_last(goal)
+        if parts is not None:
+            rs = [check_valid(premises, g, timeout_ms=min(timeout_ms, 12000), want_model=want_model, use_cvc5=use_cvc5, hints=True,
+                              stages="nosplit") for g in parts]
+            if all(r.status == "proved" for r in rs):
+                return Result("proved", rs[-1].solver + " (last-element split)", time.time() - t0)
+            for r in rs:
+                if r.status == "refuted":
+                    r.time_s = time.time() - t0
+                    return r
     try:
         sk_goal = skolemize(goal)
     except z3.Z3Exception:
@@ -443,8 +545,18 @@ def check_valid(premises, goal, timeout_ms=10000, want_model=True, use_cvc5=True
     reason = ""
     last_solver = None
     budgets = [min(1500, timeout_ms), timeout_ms] if timeout_ms > 3000 else [timeout_ms]
+    core = [p for p in premises if p.get_id() not in AUX]
     for rnd, budget in enumerate(budgets):
-        ab = budget if rnd == 0 else min(budget, 8000)  # abstraction stages rarely need more than a few seconds
+        ab = budget if rnd == 0 else min(budget, 20000)  # abstraction stages: a few seconds alone, more when 16 jobs compete
+        if hints and len(core) < len(premises) and not os.environ.get('PVC_NO_CORE'):
+            # stage 0: without the auxiliary unfolding facts (they feed instantiation chains the goal may not need)
+            try:
+                if _stage_ground(core, sk_goal, ab) == z3.unsat:
+                    return Result("proved", "z3-%s/core ground-instances" % z3.get_version_string(), time.time() - t0)
+                if _stage_abstract(core, sk_goal, ab, True) == z3.unsat:
+                    return Result("proved", "z3-%s/core abstract-mul+g" % z3.get_version_string(), time.time() - t0)
+            except z3.Z3Exception:
+                pass
         if hints:
             try:
                 if _stage_ground(premises, sk_goal, ab) == z3.unsat:
@@ -497,14 +609,40 @@ def check_valid(premises, goal, timeout_ms=10000, want_model=True, use_cvc5=True
     return Result("unknown", "z3", time.time() - t0, reason=reason)
 
 
-def check_sat(formulas, timeout_ms=5000):
-    """Satisfiability (for cover obligations): 'sat' | 'unsat' | 'unknown'."""
-    s = _tactic_solver(timeout_ms)
-    for f in formulas:
-        s.add(f)
-    r = s.check()
-    if r == z3.sat:
-        return "sat", s.model()
+def _native_divmod(f):
+    """Replace the axiomatised fdiv/fmod by z3's div/mod (one interpretation that satisfies the axiom for positive
+    divisors - the only ones it constrains), also under quantifiers: a model of the result is a model of the
+    original."""
+    INT = z3.IntSort()
+    fd = z3.Function("fdiv", INT, INT, INT)
+    fm = z3.Function("fmod", INT, INT, INT)
+    x, y = z3.Var(0, INT), z3.Var(1, INT)
+    return z3.substitute_funs(f, (fd, x / y), (fm, x % y))
+
+
+def _is_fdiv_axiom(f):
+    return z3.is_quantifier(f) and f.is_forall() and f.num_vars() == 2 and f.var_name(0) == "x_d"
+
+
+def check_sat(formulas, timeout_ms=5000, native_retry=True, native_only=False):
+    """Satisfiability (for cover obligations): 'sat' | 'unsat' | 'unknown'.
+    native_only: floor division interpreted by z3's div/mod from the start (sound for 'sat' only)."""
+    r = z3.unknown
+    if not native_only:
+        s = _tactic_solver(timeout_ms)
+        for f in formulas:
+            s.add(f)
+        r = s.check()
+        if r == z3.sat:
+            return "sat", s.model()
+    if r == z3.unknown and (native_retry or native_only):
+        # floor division interpreted natively (no quantified axiom left to instantiate)
+        fs = [f for f in formulas if not _is_fdiv_axiom(f)]
+        s2 = _tactic_solver(timeout_ms)
+        for f in fs:
+            s2.add(_native_divmod(f))
+        if s2.check() == z3.sat:
+            return "sat", s2.model()
     return ("unsat" if r == z3.unsat else "unknown"), None
 
 
